@@ -588,6 +588,41 @@ func c01Strace(e *Env, base, root string, paths []c01Path) {
 					}
 				}
 			}
+			if aw {
+				// upload histories, complete and torn (the client goes away inside the payload): whatever the
+				// server does about the file afterwards — flush, close, clean-up — happens below the root
+				for k, target := range []string{"/c01up.bin", "/dir/../c01up2.bin", "/" + strings.TrimPrefix(filepath.Join(base, "root-other", "c01up3.bin"), "/"), "/../root-other/c01up4.bin"} {
+					if c, err := wire.Dial(addr, nil, e.Watchdog); err == nil {
+						// the parents, one level at a time (the third target mirrors, below the root, the absolute
+						// path of a place beside the root: a name that means something to the host as well)
+						pre := ""
+						for _, el := range strings.Split(strings.Trim(filepath.Dir(filepath.Clean(target)), "/"), "/") {
+							if el == "" || el == ".." {
+								continue
+							}
+							pre += "/" + el
+							c.Send(wire.P(wire.OpMkdir, pre))
+							c.ReadN(wire.SzResult)
+						}
+						c.Send(wire.P(wire.OpCreate, target))
+						c.ReadN(wire.SzResult)
+						if k%2 == 0 {
+							c.Send(wire.Write([]byte("complete upload")))
+							c.ReadN(wire.SzResult)
+						}
+						c.SendRaw(wire.Req{Op: wire.OpWrite, Payload: []byte("torn upl"), DeclLen: wire.U32(100000)}.Bytes())
+						if k < 2 {
+							c.Close()
+						} else {
+							c.Reset()
+						}
+						run.Eval(1)
+					}
+				}
+				time.Sleep(200 * time.Millisecond)
+				host.Probe(addr) // the server has dealt with the torn connections by the time it answers this
+				c01Restore(root)
+			}
 			CrashCheck(e, p, "c01 binary under strace", sp)
 			p.Stop()
 			tb, _ := os.ReadFile(trace)
